@@ -30,8 +30,8 @@ MONITORS = ["updates_compared", "side_passes_observed", "loader_batches_checked"
 
 
 def gen_cases(run):
-    n = run.n(15000, 1600000)
-    n_loader = run.n(14, 960)
+    n = run.n(30000, 1600000)
+    n_loader = run.n(24, 960)
     rng = run.rng
     for i in range(n):
         g = H.gen_geometry(rng, big=True)
